@@ -277,7 +277,7 @@ def tasks(tier, scale=1.0):
     n = 24 if tier == 'quick' else 48
     fmts.sort(key=lambda t: -t[1])
     out = [('exh-%d' % i, 'task_exh', {'fmts': fmts[i::n]}) for i in range(n)]
-    nh = int((400 if tier == 'quick' else 8000) * scale)
+    nh = int((400 if tier == 'quick' else 20000) * scale)
     out += [('hyp-scalar-%d' % i, 'task_hyp', {'which': 'scalar', 'n': nh}) for i in range(8)]
     out += [('hyp-array-%d' % i, 'task_hyp', {'which': 'array', 'n': nh}) for i in range(8)]
     return out
